@@ -102,6 +102,13 @@ def data_mode(name, nbits) -> str:
     return "bits" if name in ("invert_freq", "apply_channel_mask", "extract_samps", "extract_chans", "extract_bands") else "small"
 
 
+def data_mode_rng(name, nbits, rng) -> str:
+    m = data_mode(name, nbits)
+    if m == "small" and name != "remove_zerodm" and rng.random() < 0.2:
+        return "gappy"  # stretches of exact zeros in all channels (blank blocks)
+    return m
+
+
 def needs_disp_band(name) -> bool:
     return name == "subband"
 
